@@ -13,10 +13,11 @@ import (
 // C05: Sqrt is correctly rounded and respects the receiver's precision and mode.
 
 type C05Case struct {
-	X     h.Spec `json:"x"`
-	P     uint   `json:"p"` // receiver precision (0: takes x's)
-	M     uint8  `json:"m"`
-	Alias bool   `json:"alias,omitempty"` // receiver is x itself
+	X     h.Spec  `json:"x"`
+	P     uint    `json:"p"` // receiver precision (0: takes x's)
+	M     uint8   `json:"m"`
+	Alias bool    `json:"alias,omitempty"` // receiver is x itself
+	Z     *h.Spec `json:"z,omitempty"`     // previous contents of the receiver (nil: fresh)
 }
 
 func sqrtPrecLimit() int {
@@ -61,11 +62,21 @@ func genC05(t *rapid.T) C05Case {
 		}
 		r := model.MkFinite(false, rd, h.GenExpModerate(t, "re", 1<<29))
 		x := model.MulX(r, r).Val
-		switch rapid.IntRange(0, 3).Draw(t, "perturb") {
+		switch rapid.IntRange(0, 4).Draw(t, "perturb") {
 		case 0:
 			d := model.MkFinite(rapid.Bool().Draw(t, "dneg"), "1", x.Exp-int64(len(x.Digits))-int64(rapid.IntRange(0, 30).Draw(t, "doff")))
 			if y := model.AddX(x, d).Val; y.Form == model.Finite && !y.Neg {
 				x = y
+			}
+		case 1:
+			// one stray digit far below an exact square, placed so that the operand has 19j-1 .. 19j+2 digits in all
+			// (a digit just past a word boundary of an operand that is much longer than the precision)
+			total := 19*rapid.IntRange(1, 12).Draw(t, "pj") + rapid.IntRange(-1, 2).Draw(t, "pjoff")
+			if off := total - len(x.Digits) - 1; off >= 0 {
+				d := model.MkFinite(rapid.IntRange(0, 3).Draw(t, "dneg2") == 0, string(byte('1'+rapid.IntRange(0, 8).Draw(t, "pd"))), x.Exp-int64(len(x.Digits))-int64(off))
+				if y := model.AddX(x, d).Val; y.Form == model.Finite && !y.Neg {
+					x = y
+				}
 			}
 		}
 		c.X = h.SpecOf(x, h.GenPrecFor(t, "xp", len(x.Digits)), h.GenMode(t, "xm"))
@@ -82,6 +93,21 @@ func genC05(t *rapid.T) C05Case {
 	}
 	if rapid.IntRange(0, 5).Draw(t, "alias") == 0 && (c.X.F != "f" || c.P >= uint(len(c.X.D))) {
 		c.Alias = true
+	} else if rapid.IntRange(0, 2).Draw(t, "zprev") == 0 {
+		// the receiver held something else before (negative values, specials, longer mantissas)
+		prev := h.GenAny(t, "zprev", 120)
+		if prev.F == "f" && c.P != 0 && uint(len(prev.D)) > c.P {
+			prev.D = prev.D[:c.P]
+			if prev.D[len(prev.D)-1] == '0' {
+				prev.D = prev.D[:len(prev.D)-1] + "3"
+			}
+		}
+		if prev.F == "f" && c.P == 0 {
+			prev = h.Spec{F: "z", Neg: prev.Neg}
+		}
+		prev.Neg = rapid.IntRange(0, 2).Draw(t, "zprevneg") > 0
+		prev.P, prev.M = c.P, c.M
+		c.Z = &prev
 	}
 	return c
 }
@@ -90,6 +116,10 @@ func checkC05(c C05Case, o *h.Obs) *h.Fail {
 	x := c.X.Build()
 	xv := c.X.Val()
 	z := mkRecv(c.P, c.M)
+	if c.Z != nil && !c.Alias {
+		z = c.Z.Build()
+		o.Label("receiver-with-history")
+	}
 	if c.Alias {
 		x.SetMode(decimal.RoundingMode(c.M))
 		if c.P != 0 || c.X.F != "f" {
@@ -160,7 +190,7 @@ func checkC05(c C05Case, o *h.Obs) *h.Fail {
 	return nil
 }
 
-const ruleC05 = "rapid-generated (x, receiver precision, receiver mode, x's own mode, aliasing): x constructed from its root (x = r^2 with r short, r of p..p+3 digits, or r carrying a tie / all-nines / just-above / just-below pattern at the precision; optionally perturbed by one unit far below), generic word-patterned x up to the precision bound, odd and even exponents over +-2^29, +-0 and +Inf, receiver precision 0, receiver == x. Oracle: big.Int.Sqrt of an even-exponent scaling + remainder sticky + reference Round; Prec() and Mode() after == before (precision 0 -> x's). Non-trivial = root inexact at the precision, or perfect square under a directed mode, or x.mode != z.mode. Bound: precision <= 2000 (quick) / 20000 (thorough)."
+const ruleC05 = "rapid-generated (x, receiver precision, receiver mode, x's own mode, aliasing): x constructed from its root (x = r^2 with r short, r of p..p+3 digits, or r carrying a tie / all-nines / just-above / just-below pattern at the precision; optionally perturbed by one unit far below), generic word-patterned x up to the precision bound, odd and even exponents over +-2^29, +-0 and +Inf, receiver precision 0, receiver == x, receivers that previously held negative / special / other finite values; exact squares carrying one stray digit far below, placed so that the operand's length is 19j-1..19j+2 digits. Oracle: big.Int.Sqrt of an even-exponent scaling + remainder sticky + reference Round; Prec() and Mode() after == before (precision 0 -> x's). Non-trivial = root inexact at the precision, or perfect square under a directed mode, or x.mode != z.mode. Bound: precision <= 2000 (quick) / 20000 (thorough)."
 
 var propC05 = &h.Prop[C05Case]{ID: "C05", Rule: ruleC05, Gen: genC05, Check: checkC05, Matchers: map[string]func(C05Case) bool{}}
 
